@@ -144,6 +144,8 @@ int ubuf_sound_common_plane_map(struct ubuf *ubuf, const char *channel,
     /* Check offsets. */
     if (offset < 0)
         offset = common->size + offset;
+    if (unlikely(offset < 0 || (size_t)offset > common->size))
+        return UBASE_ERR_INVALID;
 
     /* Check sizes - we don't actually use them. */
     if (size < 0)
